@@ -4,7 +4,10 @@ import (
 	"encoding/base64"
 	"encoding/binary"
 	"fmt"
+	"github.com/jcmturner/goidentity/v6"
 	"net"
+	"net/http"
+	"net/http/httptest"
 	"os"
 	"runtime"
 	"sort"
@@ -83,9 +86,13 @@ func c04Entries(m *Model) []c04Entry {
 	tokSeeds := func(rng *RNG) [][]byte {
 		var out [][]byte
 		for _, ap := range apSeeds(rng)[:2] {
-			for _, w := range []string{"init", "resp", "raw"} {
+			for i, w := range []string{"init", "resp", "raw"} {
 				sp := baseSp(18)
 				sp.wrap = w
+				// (a request of its own in every wrapping: each one is genuine and accepted once, as it is)
+				if own := mintAP(rng, []int32{18, 23, 17}[i], ""); own != nil {
+					ap = own
+				}
 				t, _ := sp.token(ap, rng)
 				out = append(out, t)
 			}
@@ -238,6 +245,17 @@ func c04Entries(m *Model) []c04Entry {
 			r.Unmarshal(b)
 		}},
 		{name: "spnego.SPNEGOToken.Unmarshal+AcceptSecContext", seeds: tokSeeds, ndr: true, run: func(b []byte) {
+			// the octets as an Authorization header to the HTTP wrapper first (a genuine token is accepted once: what follows
+			// its acceptance runs too), then to the token API
+			h := spnego.SPNEGOKRB5Authenticate(http.HandlerFunc(func(w http.ResponseWriter, r *http.Request) {
+				if id := goidentity.FromHTTPRequestContext(r); id != nil {
+					_ = id.UserName()
+				}
+			}), kt, service.Logger(discard))
+			req := httptest.NewRequest("GET", "http://host.test.gokrb5/resource", nil)
+			req.RemoteAddr = "10.0.0.1:4321"
+			req.Header.Set("Authorization", "Negotiate "+base64.StdEncoding.EncodeToString(b))
+			h.ServeHTTP(httptest.NewRecorder(), req)
 			var st spnego.SPNEGOToken
 			if st.Unmarshal(b) == nil {
 				spnego.SPNEGOService(kt, service.Logger(discard)).AcceptSecContext(&st)
